@@ -48,7 +48,7 @@ def gen_config(workdir, cfg):
     vals = {
         'FOONATHAN_MEMORY_CHECK_ALLOCATION_SIZE': 1, 'FOONATHAN_MEMORY_DEBUG_ASSERT': a, 'FOONATHAN_MEMORY_DEBUG_FILL': fill,
         'FOONATHAN_MEMORY_DEBUG_LEAK_CHECK': leak, 'FOONATHAN_MEMORY_DEBUG_POINTER_CHECK': ptr,
-        'FOONATHAN_MEMORY_DEBUG_DOUBLE_DEALLOC_CHECK': dbl, 'FOONATHAN_MEMORY_EXTERN_TEMPLATE': 1,
+        'FOONATHAN_MEMORY_DEBUG_DOUBLE_DEALLOC_CHECK': dbl, 'FOONATHAN_MEMORY_EXTERN_TEMPLATE': 0,
     }
     subst = {'FOONATHAN_MEMORY_DEFAULT_ALLOCATOR': 'heap_allocator', 'FOONATHAN_MEMORY_DEBUG_FENCE': str(fence),
              'FOONATHAN_MEMORY_TEMPORARY_STACK_MODE': '2'}
